@@ -19,11 +19,12 @@ from vf.runner import h as _hash
 PROPERTY = "C11"
 LEVEL = "exploration"
 EXHAUSTIVE = False
-RULE = ("scenario families over {subscribe (plain / decorated object; same or different topics; exact, prefix, "
+RULE = ("scenario families over {subscribe (plain / decorated object, also a falsy one; same or different topics; exact, prefix, "
         "wildcard; no details / details=True / details_arg=<name>), SUBSCRIBED / ERROR, unsubscribe() from the "
         "application and from inside a handler (of itself, an earlier, a later sibling), UNSUBSCRIBED / ERROR / "
         "router revocation, EVENT (6 payload shapes x 4 detail sets) on held, racing, gone and never-held ids} with "
-        "raising handlers (sync RuntimeError, ApplicationError, failed future): every admissible ORDER of the 4-7 "
+        "raising handlers (sync RuntimeError, ApplicationError, failed future, failing coroutine) and handlers returning "
+        "futures / coroutines: every admissible ORDER of the 4-7 "
         "concurrent steps of each family instance is enumerated (prefix-pruned DFS over distinct permutations), plus "
         "seeded adaptive random histories of 10-45 steps; each case on a fresh session over one of 8 "
         "transport x serializer combinations, on Twisted and on asyncio.  A case is non-trivial when at least one "
@@ -35,15 +36,19 @@ ASSUMPTIONS = [
     "conforming broker does; conforming EVENTs are only sent while the router regards the session as subscribed",
     "handler order = order in which SUBSCRIBED replies attached the handlers (equals the order of subscribe() calls "
     "because of the per-group FIFO)",
-    "grey, both outcomes accepted: whether a handler that is unsubscribed by a sibling DURING the fan-out of an event "
-    "(before its own turn) still receives THAT event; an EVENT after UNSUBSCRIBED was delivered (a conforming router "
+    "a handler that a sibling unsubscribes DURING the fan-out of an event, before its own turn, must not receive THAT "
+    "event any more ('after a handler has been unsubscribed it is never invoked again' takes precedence over 'attached "
+    "at the time the event arrives': its unsubscribe() has returned)",
+    "grey, both outcomes accepted: an EVENT after UNSUBSCRIBED was delivered (a conforming router "
     "cannot send it: dropped or protocol error, but never a handler call); EVENTs after an ERROR reply to UNSUBSCRIBE; "
     "router-initiated UNSUBSCRIBED (revocation, request=0) - the pinned code answers it with a protocol error, the "
     "property statement does not cover it",
     "a handler whose SUBSCRIBED raced with an UNSUBSCRIBE of the same id (subscribe() while the last other handler is "
     "being removed) is regarded as detached once UNSUBSCRIBED arrives, as the router no longer has the subscription",
-    "not driven: coroutine handlers, the same callable subscribed twice, payload encryption, acknowledged delivery, "
-    "check_types, transport loss in the middle of a fan-out (C06)",
+    "coroutine handlers are plain functions that record the call and return a coroutine object (what txaio.as_future gets "
+    "from an 'async def' handler): the invocation is recorded when the library calls the handler, not when the body runs",
+    "not driven: the same callable subscribed twice, payload encryption, acknowledged delivery, check_types, transport "
+    "loss in the middle of a fan-out (C06), subscribe() from inside a handler",
     "the harness codecs (json/msgpack/cbor2/bjdata) and vf.rfc6455_ref are trusted for decoding what the client wrote",
 ]
 DECIDING = {
@@ -51,7 +56,8 @@ DECIDING = {
     "mixed_details_events": 100, "unsub_in_handler_events": 50, "raising_handler_events": 50,
     "unsubscribe_timing_checks": 200, "unsubscribe_sent_on_last": 50, "unsubscribe_withheld_handlers_remain": 50,
     "never_held_checked": 20, "racing_events_checked": 20, "decorated_object_invocations": 20,
-    "details_checked": 200, "liveness_probes": 100,
+    "details_checked": 200, "liveness_probes": 100, "removed_midfanout_checked": 20, "coroutine_handler_invocations": 50,
+    "falsy_object_invocations": 10,
 }
 
 COMBOS = [("websocket", "json"), ("websocket", "msgpack"), ("websocket", "cbor"), ("websocket", "ubjson"),
@@ -217,12 +223,17 @@ class Exec:
     # -- handlers -----------------------------------------------------------------------------
     def make_fn(self, hid):
         ex = self
-        if self.Hs[hid]["obj"] is None:
+        oid = self.Hs[hid]["obj"]
+        if oid is None:
             def fn(*a, **k):
                 return ex.on_invoke(hid, None, a, k)
         else:
-            def fn(self_, *a, **k):
-                return ex.on_invoke(hid, self_, a, k)
+            # an (unbound) method: the library must pass the subscribed object first.  *a instead of a named ``self``
+            # so that a missing object is classified as such (published args are never identical to the object)
+            def fn(*a, **k):
+                if a and a[0] is ex.objs.get(oid):
+                    return ex.on_invoke(hid, a[0], a[1:], k)
+                return ex.on_invoke(hid, None, a, k)
         fn.__name__ = "h%d" % hid
         return fn
 
@@ -231,7 +242,7 @@ class Exec:
         spec = self.Hs[hid]
         rec = {"hid": hid, "args": list(a), "kwargs": dict(k),      # dict(k): the state AT CALL TIME
                "objok": (selfobj is None) if spec["obj"] is None else (selfobj is self.objs.get(spec["obj"])),
-               "raised": False}
+               "raised": False, "after_unsub": self.state.get(hid) == "unsubscribed"}
         cur = self.cur
         if cur is None:
             self.stray.append(rec)
@@ -243,6 +254,11 @@ class Exec:
         kind = spec["raises"]
         if kind:
             rec["raised"] = True
+            if kind == "coro":
+                # what ``async def handler`` hands to txaio.as_future: a coroutine that fails when it is run
+                async def body():
+                    raise KeyError("handler h%d coroutine raises" % hid)
+                return body()
             if kind == "sync":
                 raise RuntimeError("handler h%d raises" % hid)
             if kind == "apperr":
@@ -252,6 +268,10 @@ class Exec:
                 f = txaio.create_future()
                 txaio.reject(f, txaio.create_failure(ValueError("handler h%d failed future" % hid)))
                 return f
+        if spec.get("ret") == "coro_ok":
+            async def body_ok():
+                return "ignored"
+            return body_ok()
         if spec.get("ret") == "future_ok":
             f = txaio.create_future()
             txaio.resolve(f, "ignored")
@@ -319,12 +339,14 @@ class Exec:
             opts = (self._options(topic, spec["det"]) or SubscribeOptions()) if spec["own"] else None
             ns["m%02d_h%d" % (n, hid)] = wamp.subscribe(topic["uri"], options=opts)(self.make_fn(hid))
         ns["not_a_handler"] = lambda self_: None
+        if ospec.get("falsy"):
+            ns["__len__"] = lambda self_: 0          # a component that is also an (empty) container: bool(obj) is False
         obj = type("Obj%d" % oid, (object,), ns)()
         self.objs[oid] = obj
         objopts = None
         if ospec.get("objdet") is not None:
             objopts = self._options({"match": None}, ospec["objdet"])
-        self.log.append("subobj o%d hids=%r objdet=%r" % (oid, hids, ospec.get("objdet")))
+        self.log.append("subobj o%d hids=%r objdet=%r%s" % (oid, hids, ospec.get("objdet"), " falsy" if ospec.get("falsy") else ""))
         fut = self.sess.subscribe(obj, options=objopts)
         self.obj_out[oid] = Outcome(fut)
         self._expect_subscribes(hids, "subscribe-object")
@@ -677,6 +699,13 @@ class Exec:
                 continue
             if count[hid] > 2:
                 continue
+            if c["after_unsub"]:
+                by = [r["by"] for r in removed if r["hid"] == hid]
+                self.viol("C11/handler-called-after-unsubscribe/same-fanout",
+                          "handler h%d was invoked for EVENT %s after its unsubscribe() (called from inside handler h%s "
+                          "during the same fan-out) had returned" % (hid, ev["tag"], by[0] if by else "?"),
+                          model_list=L, calls=[x["hid"] for x in calls], removed=[(r["hid"], r["by"]) for r in removed])
+                continue
             order.append(hid)
             self.judge_call(cur, c, EventDetails)
         if [pos[x] for x in order] != sorted(pos[x] for x in order):
@@ -685,12 +714,13 @@ class Exec:
             return
         removed_before = {r["hid"] for r in removed if not r["called_before"]}
         for hid in L:
+            if hid in removed_before:
+                # unsubscribed by a sibling invoked earlier for this very EVENT: its unsubscribe() has returned, so
+                # "never invoked again" applies to the rest of this fan-out as well
+                R.count("removed_midfanout_checked")
             if count.get(hid):
-                if hid in removed_before:
-                    R.count("grey_removed_midfanout_still_called")
                 continue
             if hid in removed_before:
-                R.count("grey_removed_midfanout_not_called")
                 continue
             shifting = [r for r in removed if r["hid"] in pos and pos[r["hid"]] < pos[hid]]
             earlier_raised = [c["hid"] for c in calls if c["raised"] and pos.get(c["hid"], 1 << 30) < pos[hid]]
@@ -715,8 +745,16 @@ class Exec:
         R.count("invocations_compared")
         if spec["obj"] is not None:
             R.count("decorated_object_invocations")
+            if self.Os[spec["obj"]].get("falsy"):
+                R.count("falsy_object_invocations")
+        if spec["raises"] == "coro" or spec.get("ret") == "coro_ok":
+            R.count("coroutine_handler_invocations")
         if not c["objok"]:
-            self.viol("C11/bound-object", "handler h%d invoked with the wrong bound object" % hid, event=ev["tag"])
+            falsy = spec["obj"] is not None and self.Os[spec["obj"]].get("falsy")
+            self.viol("C11/bound-object/falsy-object-not-passed" if falsy else "C11/bound-object",
+                      "method handler h%d of a subscribed decorated object was invoked without that object as first "
+                      "argument%s (args %r)" % (hid, " - the object is falsy (defines __len__() == 0)" if falsy else "", c["args"]),
+                      event=ev["tag"])
         if c["args"] != ev["args"]:
             self.viol("C11/args-mismatch", "handler h%d got positional args %r, published %r" % (hid, c["args"], ev["args"]),
                       event=ev["tag"])
@@ -1033,7 +1071,8 @@ def instances(tier):
     # D: details / payload matrix with raising handlers: one fixed long history per combination
     combos = [(a, b, c) for a in DETS for b in DETS for c in DETS] if tier == "thorough" else \
              [(a, b, c) for a in DETS[:3] for b in DETS[:3] for c in DETS[:3]]
-    raisers = [(None, None), (0, "sync"), (1, "apperr"), (2, "failed_future"), (1, "sync"), (0, "failed_future")]
+    raisers = [(None, None), (0, "sync"), (1, "apperr"), (2, "failed_future"), (1, "sync"), (0, "failed_future"),
+               (0, "coro"), (None, "coro_ok"), (1, "coro")]
     for ci, (a, b, c) in enumerate(combos):
         for ri, (who, kind) in enumerate(raisers):
             if tier != "thorough" and (ci + ri) % 2:
@@ -1042,7 +1081,7 @@ def instances(tier):
             if who is not None:
                 hs[who]["raises"] = kind
             else:
-                hs[1]["ret"] = "future_ok"
+                hs[1]["ret"] = kind or "future_ok"
             pre = [["sub", 0], ["sub", 1], ["sub", 2], ["ack", 0], ["ack", 1], ["ack", 2]]
             evs = [["event", 0, s, (i + ci) % 4] for i, s in enumerate(SHAPES)] + [["event", 0, "both", 3], ["event", 0, "kwargs", 0]]
             out.append(("D/details-payload-matrix", hs, [T(0, [None, "prefix", "wildcard"][ci % 3])], [], True, pre + evs, []))
@@ -1053,13 +1092,13 @@ def instances(tier):
     out.append(("E/two-ids-replies", [H(0, None), H(1, ["flag"]), H(0, ["flag"], unsub=[0])], [T(0), T(1, "wildcard")], [], True,
                 [], [["sub", 0], ["sub", 1], ["sub", 2], ["ack", 0], ["ack", 1], ["ack", 2], EV]))
     # F: decorated object + plain handler sharing an id
-    for objdet in (None, ["flag"]):
+    for objdet, falsy in ((None, False), (["flag"], False), (["flag"], True)):
         hs = [H(0, objdet, obj=0, own=False), H(1, ["arg", "evt"], obj=0, own=True), H(0, ["flag"], obj=0, own=True, raises="sync"),
               H(0, None)]
-        out.append(("F/decorated-object", hs, [T(0), T(1)], [{"hids": [0, 1, 2], "objdet": objdet}], True,
+        out.append(("F/decorated-object", hs, [T(0), T(1)], [{"hids": [0, 1, 2], "objdet": objdet, "falsy": falsy}], True,
                     [["subobj", 0], ["sub", 3]],
                     [["ack", 0], ["ack", 1], ["ack", 2], ["ack", 3], EVK, ["event", 1, "both", 2]]))
-        out.append(("F/decorated-object-unsubscribe", hs, [T(0), T(1)], [{"hids": [0, 1, 2], "objdet": objdet}], True,
+        out.append(("F/decorated-object-unsubscribe", hs, [T(0), T(1)], [{"hids": [0, 1, 2], "objdet": objdet, "falsy": falsy}], True,
                     [["subobj", 0], ["sub", 3], ["ack", 0], ["ack", 1], ["ack", 2], ["ack", 3]],
                     [["unsub", 0], ["unsub", 2], ["unsub", 3], EVK, ["event", 1, "both", 2], ["ackun", 0]]))
     # G: never-held / early events and refused subscriptions
@@ -1081,11 +1120,11 @@ def gen_random_case(rng):
     for i in range(nh):
         ti = 0 if rng.random() < 0.6 else rng.randrange(ntop)
         det = rng.choice([None, None, ["flag"], ["arg", "evt"], ["arg", "details"], ["arg", "d2"]])
-        rz = rng.choice(["sync", "apperr", "failed_future"]) if rng.random() < 0.22 else None
+        rz = rng.choice(["sync", "apperr", "failed_future", "coro"]) if rng.random() < 0.22 else None
         un = []
         if rng.random() < 0.3:
             un = rng.sample(range(nh), rng.choice([1, 1, 2]))
-        hs.append(H(ti, det, rz, un, ret="future_ok" if rng.random() < 0.1 else None))
+        hs.append(H(ti, det, rz, un, ret=rng.choice(["future_ok", "coro_ok"]) if rng.random() < 0.12 else None))
     objects = []
     if nh >= 3 and rng.random() < 0.3:
         hids = sorted(rng.sample(range(nh), rng.choice([2, 3])))
@@ -1101,7 +1140,7 @@ def gen_random_case(rng):
                     topics.append(T(len(topics)))
                     exact = [len(topics) - 1]
                 hs[x]["ti"] = rng.choice(exact)
-        objects.append({"hids": hids, "objdet": objdet})
+        objects.append({"hids": hids, "objdet": objdet, "falsy": rng.random() < 0.25})
     return {"handlers": hs, "topics": topics, "objects": objects, "fresh_sid": rng.random() < 0.6, "steps": [], "adaptive": True}
 
 
@@ -1113,13 +1152,13 @@ def shards(tier, seed):
     out = []
     for fw in ("tx", "aio"):
         for ci, (tr, ser) in enumerate(COMBOS):
-            out.append({"name": "%s-%s-%s" % (fw, tr, ser), "fw": fw, "timeout": 900 if tier == "quick" else 2400,
+            out.append({"name": "%s-%s-%s" % (fw, tr, ser), "fw": fw, "timeout": 1800 if tier == "quick" else 7200,
                         "params": {"tier": tier, "seed": seed, "combo": ci, "parts": len(COMBOS), "fw": fw}})
     if tier == "thorough":
         for fw in ("tx", "aio"):
             for ci in (0, 5):
                 tr, ser = COMBOS[ci]
-                out.append({"name": "%s-%s-%s-purepy" % (fw, tr, ser), "fw": fw, "timeout": 2400,
+                out.append({"name": "%s-%s-%s-purepy" % (fw, tr, ser), "fw": fw, "timeout": 7200,
                             "env": {"AUTOBAHN_USE_NVX": "0"},
                             "params": {"tier": tier, "seed": seed + 7919, "combo": ci, "parts": len(COMBOS), "fw": fw,
                                        "purepy": True}})
@@ -1169,9 +1208,10 @@ MANIFEST_ENTRY = {
              "attached to that subscription id at arrival; the UNSUBSCRIBE messages decoded from the wire are compared with "
              "'exactly once, when the last handler goes'; raising handlers, racing and never-held ids are judged on the "
              "session/transport state. Held = no mismatch on the executions listed in the evidence; not a proof."),
-    "note": ("conservative on what the statement leaves open: a sibling unsubscribed during the same fan-out may or may not "
-             "still get that event; EVENT after UNSUBSCRIBED, after a refused UNSUBSCRIBE and router revocation are observed, "
-             "not judged; coroutine handlers and payload encryption are not driven; trusts the harness codecs"),
+    "note": ("conservative on what the statement leaves open: EVENT after UNSUBSCRIBED, after a refused UNSUBSCRIBE and router "
+             "revocation are observed, not judged; a sibling unsubscribed earlier in the same fan-out must not get that event "
+             "any more; payload encryption, acknowledged delivery and double subscription of one callable are not driven; "
+             "trusts the harness codecs"),
     "technique": "runtime monitoring: history + executable model (handler lists per subscription id), unique tags, "
                  "exhaustive order enumeration of small step sets + seeded random histories on virtual-clock worlds",
 }
